@@ -2,9 +2,13 @@
    XML format table (Gen/XmlFmt.v) and the real XML writer / reader:
    A. the tree the implementation wrote  ~  write xml_root (value extracted from the original objects)
       (numeric leaves within 10^-d, d the writer's precision);
-   B. value extracted from the read-back objects  ~  read xml_root (tree the implementation wrote). *)
+   B. value extracted from the read-back objects  ~  read xml_root (tree the implementation wrote);
+   F. float_to_str on digit strings = Model/DecStr.v;
+   H. writer histories (several writer objects of either format and any precision constructed / used in one
+      process, either write method): precision.decimals observed after every step = Model/WriterPrec.v trace.
+      The files written inside such histories enter relation A with d = the precision of THEIR writer. *)
 From Coq Require Import QArith Qabs ZArith String List Bool.
-From CR Require Import Base.QMod Model.Codec Model.DecStr Gen.XmlFmt.
+From CR Require Import Base.QMod Model.Codec Model.DecStr Model.WriterPrec Gen.XmlFmt.
 Import ListNotations.
 Open Scope string_scope.
 Open Scope list_scope.
@@ -59,7 +63,15 @@ Definition tiny : Q := 0.
 Inductive case :=
 | CaseA (d : nat) (v : val) (t : tree)      (* original value, tree written by the implementation *)
 | CaseB (t : tree) (v : val)                (* tree written by the implementation, read-back value *)
-| CaseF (d : nat) (x y : dec).              (* str(x) as digits, float_to_str(x) as digits (no exponent) *)
+| CaseF (d : nat) (x y : dec)               (* str(x) as digits, float_to_str(x) as digits (no exponent) *)
+| CaseH (g0 : nat) (h : list step) (obs : list nat).   (* global before, history, precision.decimals after each step *)
+
+Fixpoint nlist_eqb (a b : list nat) : bool :=
+  match a, b with
+  | [], [] => true
+  | x :: r, y :: q => Nat.eqb x y && nlist_eqb r q
+  | _, _ => false
+  end.
 
 Definition zlist_eqb (a b : list Z) : bool :=
   Nat.eqb (length a) (length b) && forallb (fun p => Z.eqb (fst p) (snd p)) (combine a b).
@@ -77,6 +89,7 @@ Definition check (c : case) : bool :=
                  | None => false
                  end
   | CaseF d x y => dec_eqb (float_to_str d x) y
+  | CaseH g0 h obs => nlist_eqb (map fst (trace (world0 g0) h)) obs
   end.
 
 (* diagnostics: position (child indices) of the first difference, for replay files *)
@@ -122,4 +135,5 @@ Definition diagnose (c : case) : option (list nat) :=
                  | None => Some [555%nat]
                  end
   | CaseF d x y => if dec_eqb (float_to_str d x) y then None else Some []
+  | CaseH g0 h obs => if nlist_eqb (map fst (trace (world0 g0) h)) obs then None else Some []
   end.
